@@ -106,11 +106,16 @@ func NewEngineTarget(obs *Obs, text string) (*Target, error) {
 // NewEngineTargetSplit installs the rule set in several steps: a full build of the first group
 // of rules, then incremental builds of the remaining groups (so that the binary-search
 // insertion and the copy-on-write merge are on the path of every E2 oracle).
+// victimRule is installed with the first group and removed again at the end, so that
+// RemoveRules (a fresh container built by filtering and re-sorting) is on the path too.
+const victimRule = "rule \"zz-victim\" salience 1 begin st(-77) end\n"
+
 func NewEngineTargetSplit(obs *Obs, groups []string) (*Target, error) {
-	t, err := NewEngineTarget(obs, groups[0])
+	t, err := NewEngineTarget(obs, groups[0]+victimRule)
 	if err != nil {
 		return nil, err
 	}
+	defer t.RB.RemoveRules([]string{"zz-victim", "never-there"})
 	for _, g := range groups[1:] {
 		g := g
 		if err := CompileLocked(func() error { return t.RB.BuildRuleWithIncremental(g) }); err != nil {
@@ -122,10 +127,11 @@ func NewEngineTargetSplit(obs *Obs, groups []string) (*Target, error) {
 
 // NewPoolTargetSplit is the pool counterpart: pool construction, then incremental updates.
 func NewPoolTargetSplit(obs *Obs, groups []string, min, max int64, em int) (*Target, error) {
-	t, err := NewPoolTarget(obs, groups[0], min, max, em)
+	t, err := NewPoolTarget(obs, groups[0]+victimRule, min, max, em)
 	if err != nil {
 		return nil, err
 	}
+	defer t.Pool.RemoveRules([]string{"zz-victim", "never-there"})
 	for _, g := range groups[1:] {
 		g := g
 		if err := CompileLocked(func() error { return t.Pool.UpdatePooledRulesIncremental(g) }); err != nil {
